@@ -383,7 +383,7 @@ func main() {
 	}
 	run.Assume("the client drives BlockDB with one mutating thread (BlockAdd/Idle/BlockTrusted/BlockInvalid/Close) and any number of reader threads (BlockGet*, BlockLength, GetStats); the monitor does the same")
 	run.Assume("a block marked invalid, and a block whose data file left the retention window (file index + DataFilesKeep < highest file index ever used), may be absent; if returned it must still be byte-identical")
-	run.Assume("marking a trusted block invalid, marking a block invalid twice and re-adding an invalidated block are outside the quantifier (the first panics on purpose)")
+	run.Assume("marking a trusted block invalid (panics on purpose) and re-adding an invalidated block are outside the quantifier")
 	run.Assume("BlockLength of a block that is still queued is unspecified (observed: 0); BlockLength(h,false) may return the stored (compressed) length")
 	minDistinct := run.N(150, 400)
 	if replay != "" {
